@@ -107,7 +107,7 @@ func (rntt NumberTheoreticTransformerConjugateInvariant) Forward(p1, p2 []uint64
 }
 
 // ForwardLazy writes the forward NTT in Z[X+X^-1]/(X^2N+1) of p1 on p2.
-// Returns values in the range [0, 2q-1].
+// Returns values in the range [0, 6q-2].
 func (rntt NumberTheoreticTransformerConjugateInvariant) ForwardLazy(p1, p2 []uint64) {
 	NTTConjugateInvariantLazy(p1, p2, rntt.N, rntt.Modulus, rntt.MRedConstant, rntt.RootsForward)
 }
